@@ -2,9 +2,11 @@ use crate::engine::Property;
 
 pub mod c01;
 pub mod c04;
+pub mod c12;
+pub mod c16;
 
 pub fn all() -> Vec<&'static dyn Property> {
-    vec![&c01::C01, &c04::C04]
+    vec![&c01::C01, &c04::C04, &c12::C12, &c16::C16]
 }
 
 pub fn find(id: &str) -> Option<&'static dyn Property> {
